@@ -55,7 +55,11 @@ MODULE_NAMES = ["g1", "g2", "deco", "Base", "Ctx", "Color", "Meta", "os", "sys",
                 "asyncio", "T", "Ts", "P", "itertools", "enum", "dataclasses"]
 ATTRS = ["attr", "meth", "real", "append", "items", "name", "value", "missing", "__class__", "__dict__", "path", "x", "RED",
          "__doc__", "upper", "keys"]
-INT_LITS = ["0", "1", "2", "-1", "10", "255", "1_000", "0x1F", "0b11", "10**30"]
+INT_LITS = ["0", "1", "2", "-1", "10", "255", "1_000", "0x1F", "0b11"]
+# pyanalyze evaluates operators on literal operands: an exponent that is itself computed (`x ** (y ** z)`) would make the
+# in-process check run for ever inside C code, where no alarm can interrupt it; `**` therefore only gets these exponents
+# (unbounded constant folding is observed separately, in a resource-limited subprocess, by C12's termination probe)
+SAFE_EXPONENTS = ["0", "1", "2", "-1", "0.5", "'a'", "None", "undef1"]
 STR_LITS = ["'a'", "''", "'ab'", "'%s'", "'%d %s'", "'{}'", "'{0} {x}'", "'k'", "'\\n'", "'é'", "'日本'", "\"q'\"", "r'\\d'"]
 OTHER_LITS = ["None", "True", "False", "...", "1.5", "0.0", "1e10", "2j", "b'x'", "b''", "()", "[]", "{}", "1.", "float('nan')"]
 BINOPS = ["+", "-", "*", "/", "//", "%", "**", "@", "<<", ">>", "&", "|", "^"]
@@ -361,7 +365,10 @@ class Fuzz:
 
     def e_binop(self, d):
         self.f("expr:binop")
-        return f"({self.expr(d)} {self.pick(BINOPS)} {self.expr(d)})"
+        op = self.pick(BINOPS)
+        if op == "**":
+            return f"({self.expr(d)} ** {self.pick(SAFE_EXPONENTS)})"
+        return f"({self.expr(d)} {op} {self.expr(d)})"
 
     def e_unary(self, d):
         self.f("expr:unaryop")
@@ -795,7 +802,8 @@ class Fuzz:
     def s_augassign(self, ind):
         t = self.simple_target()
         self.f("stmt:augassign-" + ("attribute" if "." in t.split("[")[0] and not t.endswith("]") else "subscript" if t.endswith("]") else "name"))
-        return [f"{ind}{t} {self.pick(BINOPS)}= {self.expr()}"]
+        op = self.pick(BINOPS)
+        return [f"{ind}{t} {op}= {self.pick(SAFE_EXPONENTS) if op == '**' else self.expr()}"]
 
     def s_annassign(self, ind):
         self.f("stmt:annassign")
